@@ -5,7 +5,7 @@ CONSTANTS
   MaxItems = 2
   AssignMax = 4
   ArgVals = 1
-  TypeIds = {"US1", "US2", "US3", "US4", "US5", "US6", "US7", "US8", "UE1", "UE2", "UE3", "UE4", "UE5", "UE6", "UE7", "UE8", "UE9", "UE10", "UE11", "UE12", "UE13", "UE14", "US9", "US10", "US11", "UE15", "UE16", "PE1", "GU1", "GU2", "GX1", "GP1", "GP2"}
+  TypeIds = {"US1", "US2", "US3", "US4", "US5", "US6", "US7", "US8", "UE1", "UE2", "UE3", "UE4", "UE5", "UE6", "UE7", "UE8", "UE9", "UE10", "UE11", "UE12", "UE13", "UE14", "US9", "US10", "US11", "UE15", "UE16", "PE1", "GU1", "GU2", "GX1", "GP1", "GP2", "US12"}
   LMults = {0, 1, 3}
   BigInit = FALSE
   FollowUps = FALSE
